@@ -32,6 +32,12 @@ class Pt(pg.Object):
   meta: pgt.Dict() = pg.Dict()
 
 
+class Req(pg.Object):
+  """Has a required field: a partial instance really is partial."""
+  r: int
+  s: int = 1
+
+
 class Holder(pg.Object):
   t: pgt.Any() = None
   u: pgt.Any() = None
@@ -73,7 +79,11 @@ def build(shape, v, si, fi):
   if shape == 'object_defaults':
     return Pt(x=v[0])
   if shape == 'partial':
-    return Pt.partial(kids=[Pt.partial()])
+    return Pt.partial(kids=[Pt.partial(), Req.partial(s=v[0])], meta={'m': Req.partial()})
+  if shape == 'partial_nested':
+    # partial objects below every kind of container, incl. (nested) tuples
+    return Holder.partial(t=(v[0], Req.partial(s=v[1]), (Req.partial(), [Req.partial(s=v[2])])),
+                          u=pg.Dict(l=[Req.partial()], d={'k': Req.partial(s=v[3])}, tt=((Req.partial(),),)))
   if shape == 'tuples':
     return Holder(t=(v[0], (v[1],), [v[2]], {'d': v[3]}), u=pg.Dict(one=(s,), two=(f, None)))
   if shape == 'tuples_empty':
@@ -97,7 +107,7 @@ def build(shape, v, si, fi):
   raise AssertionError(shape)
 
 
-SHAPES = ['dict_list', 'int_keys', 'str_keys', 'object', 'object_defaults', 'partial', 'tuples', 'tuples_empty', 'typed_list', 'classes_fns',
+SHAPES = ['dict_list', 'int_keys', 'str_keys', 'object', 'object_defaults', 'partial', 'partial_nested', 'tuples', 'tuples_empty', 'typed_list', 'classes_fns',
           'nested_deep', 'dna', 'dnaspec', 'hyper']
 
 
@@ -169,10 +179,10 @@ def h_json(params, v0, v1, v2, v3, si, fi, hide, form):
   try:
     if form == 0:
       reach('json.object_form')
-      y = pg.from_json(pg.to_json(x, **kwargs), allow_partial=(shape == 'partial'))
+      y = pg.from_json(pg.to_json(x, **kwargs), allow_partial=shape.startswith('partial'))
     else:
       reach('json.string_form')
-      y = pg.from_json_str(pg.to_json_str(x, **kwargs), allow_partial=(shape == 'partial'))
+      y = pg.from_json_str(pg.to_json_str(x, **kwargs), allow_partial=shape.startswith('partial'))
   except Exception as e:  # pylint: disable=broad-except
     return Violation(f'{tag}:round_trip_raises:{type(e).__name__}{skey}', f'{x!r}: {e!r}'[:400])
   viol = _check_rt(x, y, tag, has_nan)
